@@ -579,6 +579,91 @@ def rule_id_width(chk, prog):
             r.ok(key, sites[0][0].loc(sites[0][1]) if sites else "", "reviewed: " + table[key][1][:100])
 
 
+def rule_overlaps_with(chk, prog):
+    """NudgingShiftSegment::overlapsWith: which segments end up in one nudging region."""
+    import itertools
+    r = chk.rule("OVERLAPS-WITH", "NudgingShiftSegment::overlapsWith interpreted on two collinear segments whose spans overlap, over all orderings of their "
+                 "movement intervals [min, max] on a small grid (fixed segments have min = max): the answer is true exactly when the two CLOSED "
+                 "intervals meet -- touching intervals included, e.g. a fixed segment at p and a free segment flush against an obstacle at p, "
+                 "which is the pair that has to be nudged apart; the relation is symmetric", floor=1)
+    fn = prog.fn("Avoid::NudgingShiftSegment::overlapsWith")
+
+    def pt(x, y):
+        return default_obj(prog, "Avoid::Point", {"x": Fraction(x), "y": Fraction(y), "id": 0, "vn": 8})
+
+    def seg(lo, hi, mn, mx):
+        o = default_obj(prog, "Avoid::NudgingShiftSegment", {"minSpaceLimit": Fraction(mn), "maxSpaceLimit": Fraction(mx), "sBend": False, "zBend": False,
+                                                            "finalSegment": False, "fixed": mn == mx})
+        o.f["_low"], o.f["_high"] = pt(5, lo), pt(5, hi)
+        return o
+    n = 0
+    bad = None
+    vals = (0, 5, 9)
+    for (a0, a1), (b0, b1) in itertools.product([(x, y) for x in vals for y in vals if x <= y], repeat=2):
+        sa, sb = seg(0, 10, a0, a1), seg(4, 14, b0, b1)
+        res = []
+        for x, y in ((sa, sb), (sb, sa)):
+            it = Interp(prog, Oracle([]))
+            it.vhooks["Avoid::NudgingShiftSegment::lowPoint"] = lambda it_, recv, args: recv.f["_low"]
+            it.vhooks["Avoid::NudgingShiftSegment::highPoint"] = lambda it_, recv, args: recv.f["_high"]
+            try:
+                res.append(bool(it.call(fn, x, None, None, arg_values=[y, 0])))
+            except Unsupported as e:
+                raise AnalysisBroken("overlapsWith outside the interpreter subset: %s" % e)
+        n += 2
+        want = a0 <= b1 and b0 <= a1
+        if (res[0] != want or res[1] != want) and bad is None:
+            bad = "movement intervals [%s,%s] and [%s,%s], spans overlapping: overlapsWith = %s / %s (other way round), the closed intervals %s" % (
+                a0, a1, b0, b1, res[0], res[1], "meet" if want else "are disjoint")
+    r.count()
+    r.evaluations = n
+    (r.bad if bad else r.ok)("overlapping spans", fn.where(), bad or "%d evaluations" % n)
+
+
+def rule_gap_rewrite(chk, prog):
+    """nudgeOrthogonalRoutes: after a failed solve, which separation constraints get the reduced distance."""
+    r = chk.rule("GAP-REWRITE", "the loop of ImproveOrthogonalRoutes::nudgeOrthogonalRoutes that lowers the separation after an unsatisfied solve, "
+                 "interpreted on a chain of constraints with one and with two unsatisfied ranges: every constraint from the one that ENTERS a "
+                 "range (left == vs[first]) to the one that CLOSES it (right == vs[second]), both included, gets the reduced distance if its gap "
+                 "is positive; zero gaps (channel edges) and constraints outside the ranges keep theirs -- a closing constraint that keeps the "
+                 "full distance can never be satisfied, and nothing in its region is nudged", floor=2)
+    fn = prog.fn("Avoid::ImproveOrthogonalRoutes::nudgeOrthogonalRoutes")
+    loops = [n for n in fn.nodes() if n.get("k") == "ForStmt" and "cs.end()" in norm(n.get("cond")) and
+             any(x.get("k") == "DeclRefExpr" and x.get("ref") == "withinUnsatisfiedGroup" for x in walk(n.get("body") or {}))]
+    if len(loops) != 1:
+        raise AnalysisBroken("nudgeOrthogonalRoutes: the gap-rewriting loop was not found")
+    lp = loops[0]
+    dids = {}
+    for d in fn.nodes():
+        if d.get("k") == "VarDecl" and d.get("name") in ("cs", "vs", "unsatisfiedRanges", "sepDist", "withinUnsatisfiedGroup"):
+            dids.setdefault(d["name"], d["did"])
+    if len(dids) != 5:
+        raise AnalysisBroken("nudgeOrthogonalRoutes: locals of the gap-rewriting loop not found (%s)" % sorted(dids))
+    # chain of 7 variables v0..v6; constraint k links v_k -> v_{k+1}
+    for name, gaps, ranges in (("one range v1..v4", [4, 4, 0, 4, 4, 4], [(1, 4)]), ("two ranges v0..v2 and v4..v6", [4, 4, 4, 4, 0, 4], [(0, 2), (4, 6)])):
+        vs = Vec([Obj("Avoid::Variable", {"id": i}) for i in range(7)], "Avoid::Variable *")
+        cs = Vec([Obj("Avoid::Constraint", {"left": vs.items[k], "right": vs.items[k + 1], "gap": Fraction(g)}) for k, g in enumerate(gaps)], "Avoid::Constraint *")
+        rng = Vec([Obj("std::pair", {"first": a, "second": b}) for a, b in ranges], "std::pair<unsigned long, unsigned long>")
+        env = {dids["cs"]: Box(cs), dids["vs"]: Box(vs), dids["unsatisfiedRanges"]: Box(rng), dids["sepDist"]: Box(Fraction(3)),
+               dids["withinUnsatisfiedGroup"]: Box(False), "this": None}
+        it = Interp(prog, Oracle([]))
+        r.count()
+        try:
+            it.ex(lp, env)
+        except Unsupported as e:
+            raise AnalysisBroken("gap-rewriting loop outside the interpreter subset (%s): %s" % (name, e))
+        want = list(gaps)
+        for a, b in ranges:
+            for k in range(a, b):
+                if want[k] > 0:
+                    want[k] = 3
+        got = [c.f["gap"] for c in cs.items]
+        bad = None
+        if [Fraction(x) for x in want] != got:
+            bad = "gaps afterwards %s, expected %s (constraint k links v_k and v_k+1)" % ([str(x) for x in got], want)
+        (r.bad if bad else r.ok)(name, fn.loc(lp), bad or "")
+
+
 def run(chk):
     prog = chk.load()
     cg = CallGraph(prog)
@@ -591,6 +676,8 @@ def run(chk):
     chk.guard(rule_settings_dirty, chk, prog)
     chk.guard(rule_fixed_flag, chk, prog)
     chk.guard(rule_id_width, chk, prog)
+    chk.guard(rule_overlaps_with, chk, prog)
+    chk.guard(rule_gap_rewrite, chk, prog)
     from ..rules import mirrors
     r = chk.rule("MIRROR", "NudgingShiftSegment::lowC/highC and the scan-line helpers firstObstacleAbove/Below, markShiftSegmentsAbove/Below "
                  "stay exact mirror images (tables/mirrors.json)", floor=3)
